@@ -240,7 +240,7 @@ func verifH_C10_content_params() {
 	verifReach("end")
 }
 
-//verif:harness id=C10 tier=quick,thorough witness=end bounds="deepObject query parameters that pass the real Parameter.Validate: object schema in 6 shapes (string / nested object / array of strings / array of objects property, additionalProperties schema, free-form) x one or two query keys drawn from 12 bracket forms (p[a], p[a][b], p[a][0], p[a][1], p[a][0][b], p[b], p[a][x], p[], p[a][, p, p[a][-1], p[a][3]) x values from {1, x, empty}; parameter name p, or (one key) a name with regular-expression or bracket characters: s(v, a[b, p.q; ValidateParameter with MultiError symbolic; assertion = no panic (concrete texts chosen by the explorer)"
+//verif:harness id=C10 tier=quick,thorough witness=end bounds="deepObject query parameters that pass the real Parameter.Validate: object schema in 6 shapes (string / nested object / array of strings / array of objects property, additionalProperties schema, free-form) x one or two query keys drawn from 12 bracket forms (p[a], p[a][b], p[a][0], p[a][1], p[a][0][b], p[b], p[a][x], p[], p[a][, p, p[a][-1], p[a][3], p[a][5000000], p[a][5000000][b]: the work is bounded by the query's size, not by the index) x values from {1, x, empty}; parameter name p, or (one key) a name with regular-expression or bracket characters: s(v, a[b, p.q; ValidateParameter with MultiError symbolic; assertion = no panic (concrete texts chosen by the explorer)"
 func verifH_C10_deepobject() {
 	verifMapOrder() // map iteration order is unspecified: ascending and descending key order
 	str := &openapi3.SchemaRef{Value: &openapi3.Schema{Type: &openapi3.Types{"string"}}}
@@ -269,7 +269,7 @@ func verifH_C10_deepobject() {
 	if param.Validate(context.Background()) != nil {
 		return
 	}
-	keys := []string{"[a]", "[a][b]", "[a][0]", "[a][1]", "[a][0][b]", "[b]", "[a][x]", "[]", "[a][", "", "[a][-1]", "[a][3]"}
+	keys := []string{"[a]", "[a][b]", "[a][0]", "[a][1]", "[a][0][b]", "[b]", "[a][x]", "[]", "[a][", "", "[a][-1]", "[a][3]", "[a][5000000]", "[a][5000000][b]"}
 	vals := []string{"1", "x", ""}
 	q := url.Values{}
 	k1 := verifChoose("k1", len(keys))
